@@ -245,6 +245,8 @@ for d2 in (False, True):
         file_cases.append((route, d2, f0, dims))
         if not d2 and (THOROUGH or idx % 8 == 0):
             file_cases.append(('segy3d', d2, forms[(idx + 1) % len(forms)], dims))
+        if not d2 and dims[0] in (8, 16) and (THOROUGH or idx % 3 == 0):
+            file_cases.append(('segy3d-rio', d2, f0, dims))          # reduce_iops=True, several plane sets of 8 / 16 inlines
         if THOROUGH or idx % 4 == 0:
             i = rng.randrange(4)
             if i == 3:
@@ -353,6 +355,11 @@ sgy3 = os.path.join(tmp, 'c.sgy')
 mk_segy(sgy3, cube, range(10, 10 + SHAPE3[0]), range(20, 20 + SHAPE3[1]))
 sgy2 = os.path.join(tmp, 'l.sgy')
 mk_segy_2d(sgy2, line)
+# a cube with more inlines than any lateral block dimension tried through the reduced-I/O SEG-Y reader (route 'segy3d-rio')
+SHAPE3B = (20, 6, 17)
+cube_b = rnd_cube(rng, SHAPE3B)
+sgy3b = os.path.join(tmp, 'cb.sgy')
+mk_segy(sgy3b, cube_b, range(10, 10 + SHAPE3B[0]), range(20, 20 + SHAPE3B[1]))
 _zf = {}
 
 
@@ -371,14 +378,14 @@ def convert(route, out, bpv, bs):
     if route == 'numpy':
         write_numpy_sgz(out, cube, bpv=bpv, blockshape=bs)
     else:
-        write_segy_sgz(sgy3 if route == 'segy3d' else sgy2, out, bpv=bpv, blockshape=bs)
+        write_segy_sgz({'segy3d': sgy3, 'segy3d-rio': sgy3b}.get(route, sgy2), out, bpv=bpv, blockshape=bs, reduce_iops=(route == 'segy3d-rio'))
 
 
 def check_file(route, out, expect):
     """conformance + fidelity of a written file; returns '' or a description of what is wrong"""
     s = SpecFile(out)
     d2 = route == 'segy2d'
-    src = line if d2 else cube
+    src = line if d2 else (cube_b if route == 'segy3d-rio' else cube)
     if len(s.raw) != s.expected_length():
         return f'file length {len(s.raw)}, the header implies {s.expected_length()}'
     if s.is2d != d2:
@@ -434,7 +441,7 @@ try:
     if route == 'numpy':
         write_numpy_sgz(out, np.load(src), bpv=bpv, blockshape=bs)
     else:
-        write_segy_sgz(src, out, bpv=bpv, blockshape=bs)
+        write_segy_sgz(src, out, bpv=bpv, blockshape=bs, reduce_iops=(route == 'segy3d-rio'))
     print('WRITTEN')
 except Exception as e:
     print('RAISED', exc_class(e), 'created' if os.path.exists(out) else 'not-created')
@@ -480,7 +487,7 @@ try:
             continue
         if risky:
             nchild[route] += 1
-            src = {'numpy': npy3, 'segy3d': sgy3, 'segy2d': sgy2}[route]
+            src = {'numpy': npy3, 'segy3d': sgy3, 'segy2d': sgy2, 'segy3d-rio': sgy3b}[route]
             p = subprocess.run([sys.executable, '-c', CHILD, route, src, out, repr(bpv), repr(bs)], stdout=subprocess.PIPE,
                                stderr=subprocess.DEVNULL, text=True, env=dict(os.environ, PYTHONHASHSEED='0'))
             last = (p.stdout.strip().splitlines() or [''])[-1]
